@@ -22,7 +22,17 @@
 //! rule and the role counters demand that every gate was seen open and closed.
 //! After every accepted step and every ledger advance owner_of(id), get_approved(id) and
 //! is_approved_for_all(o, op) are compared with the model for all ids and all ordered pairs
-//! (an expired approval has to read none / false).
+//! (an expired approval has to read none / false), and every account that has just lost its
+//! authority over a token (approval cleared by the move / revoked / replaced / expired, operator
+//! dismissed / expired / operator of the former owner, former owner) tries every way of moving
+//! or approving it and has to be refused (`probe_lost_authority`). These probes matter because
+//! state merging makes "former approved account" indistinguishable from "stranger" as soon as
+//! the contract really removed the entry: the BFS would never revisit such a state under that name.
+//!
+//! Worlds (see RULE): narrow / wide alphabets, with one, two or three accepted live values;
+//! "+approvals-seeded" starts from approvals overwritten by shorter-lived ones (the temporary
+//! entry outlives the approval, so only the contract's explicit comparison rejects it);
+//! "+min-temp-ttl-16" runs with the network-default minimal temporary lifetime for the same reason.
 
 use soroban_sdk::testutils::{Address as _, Ledger as _};
 use soroban_sdk::{Address, Env, IntoVal, String as SString, TryFromVal, Val, Vec as SVec};
@@ -394,30 +404,12 @@ impl Nft {
             let g = self.get_approved(i, id as u32, o.is_some())?;
             let want = m.appr_live(id);
             if g != want {
-                if let Some((a, l)) = m.appr[id] {
-                    ensure!(
-                        m.now <= l,
-                        "expired-approval-reads-none",
-                        "get_approved({}) after {} returns {:?} at ledger {} although the approval of {:?} was live only until {} [{}]",
-                        id,
-                        after,
-                        g,
-                        m.now,
-                        a,
-                        l,
-                        m.describe()
-                    );
-                }
-                ensure!(
-                    g.is_none(),
-                    "approval-cleared",
-                    "get_approved({}) after {} returns {:?}, but the model has no approval (never set, revoked, or cleared by a transfer/burn) [{}]",
-                    id,
-                    after,
-                    g,
-                    m.describe()
-                );
-                ensure!(false, "approval-lockstep", "get_approved({}) after {}: contract {:?}, model {:?} [{}]", id, after, g, want, m.describe());
+                let (oracle, why) = match (g, m.appr[id]) {
+                    (Some(x), Some((a, l))) if x == a && m.now > l => ("expired-approval-reads-none", format!("the approval of {a:?} was live only until ledger {l}")),
+                    (Some(_), None) => ("approval-cleared", "the model has no approval (never set, revoked, or cleared by a transfer / burn)".to_string()),
+                    _ => ("approval-lockstep", format!("the model says {want:?}")),
+                };
+                ensure!(false, oracle, "get_approved({}) after {} returns {:?} at ledger {}, but {} [{}]", id, after, g, m.now, why, m.describe());
             }
             if m.appr[id].is_some() && want.is_none() {
                 cx.stats.count("getter: expired approval reads none", 1);
@@ -927,7 +919,7 @@ fn cfg_wide() -> Cfg {
     Cfg { label: "wide", lives: ALL_LIVES.to_vec(), cands: 3, self_to: true, holders_only: false, burn_leaf: false, wide_refusals: true }
 }
 
-const RULE: &str = "level-BFS over histories of approve(approver, approved, id, live) / approve_for_all(owner, operator, live) / revocations (live 0) / transfer / transfer_from / burn / burn_from / advance(1|2) on the real nft-sequential-minting (Base), nft-enumerable and nft-consecutive example contracts, 2 tokens (0 of A, 1 of B; consecutive: a third token 2 of B so that token 1's owner is inferred), 4 accounts A B C D; EVERY call under enforcing authorization signed by exactly one account or nobody; named principals (approver / owner / from / spender) range over all 4 accounts; a named principal that the model allows is tried with every recipient / approved / operator candidate and every live value signed by itself, and additionally signed by each other account and by nobody; a named principal that the model does not allow is tried with a representative argument set ('wide' worlds: all); live in {0, now-1, now, now+1, max, max+1} ('narrow' worlds of the quick tier: {0, now-1, now+1, max, max+1}); 'narrow' = 2 candidates per principal, operators appointed by token holders only, burns checked but not expanded; 'wide' = 3 candidates, transfer to self, any account appoints operators, burns expanded; '+approvals-seeded' worlds start from approvals already in place, some overwritten by shorter-lived ones; states merged by canonical storage digest + ledger + the model's live (who, live_until) approvals; after every accepted call and ledger advance owner_of / get_approved for both ids and is_approved_for_all for all 16 ordered pairs are compared with the model; non-trivial = distinct state reached through at least one accepted state-changing call";
+const RULE: &str = "level-BFS over histories of approve(approver, approved, id, live) / approve_for_all(owner, operator, live) / revocations (live 0) / transfer / transfer_from / burn / burn_from / advance(1|2) on the real nft-sequential-minting (Base), nft-enumerable and nft-consecutive example contracts; 2 tokens (0 of A, 1 of B; consecutive: a third token 2 of B so that the owner of token 1 is inferred), 4 accounts A B C D; EVERY call under enforcing authorization signed by exactly one account or by nobody. Named principals (approver / owner / from / spender) range over all 4 accounts; a named principal the model allows is tried with every candidate recipient / approved account / operator and every live value signed by itself, and additionally signed by each other account and by nobody; a named principal the model does not allow is tried with representative arguments (grant and revocation; in narrow worlds a (spender, from) pair with from != owner only if spender = from, spender is a live operator of from, or spender is the live approved account; wide worlds: all pairs). Worlds: narrow = 2 candidates per principal, operators appointed by token holders only, burns checked but not expanded; wide = 3 candidates, transfer to self, any account appoints operators, burns expanded, all six live values; live values: 1live = {0, now-1, now+1, max+1}, 2lives = {0, now-1, now+1, max, max+1}, 3lives = {0, now-1, now, now+1, max, max+1}; +approvals-seeded = start from approvals already in place, two of them overwritten by shorter-lived ones (the storage entry outlives the approval); +min-temp-ttl-16 = network-default minimal temporary lifetime, so every short approval is outlived by its entry (elsewhere min_temp_entry_ttl = 1). Quick: narrow-1live depth 4, seeded narrow-2lives depth 3, ttl16 narrow-1live depth 3; thorough: narrow-1live depth 5, narrow-3lives depth 4, wide depth 3, seeded narrow-2lives depth 4, ttl16 narrow-1live depth 4; each for the 3 flavours. States merged by canonical storage digest + ledger + the model's live (who, live_until) approvals. Oracles: an accepted move is signed by the current owner / live approved account / live operator of the CURRENT owner; an accepted approve or revocation by the owner or a live operator; an accepted approve_for_all(owner, ..) by owner; after every accepted call and ledger advance owner_of / get_approved for both ids and is_approved_for_all for all 16 ordered pairs equal the model (expired reads none / false), and every account that lost its authority in that step (approval cleared by the move, revoked, replaced, expired; operator dismissed, expired or of the former owner; former owner) is refused on transfer / transfer_from / burn / burn_from / approve. non-trivial = distinct state reached through at least one accepted state-changing call";
 
 fn main() {
     main_with("C11", "model_checking", RULE, |tier: Tier, r: &mut Runner| {
